@@ -259,6 +259,13 @@ errreturn:
 
 func fileCloseAux(L *LState, file *lFile) int {
 	errorIfFileIsClosed(L, file)
+	if file.fp == os.Stdin || file.fp == os.Stdout || file.fp == os.Stderr {
+		// the standard files belong to the process, not to this state: every
+		// other LState has handles on the same descriptors
+		L.Push(LNil)
+		L.Push(LString("cannot close standard file"))
+		return 2
+	}
 	file.closed = true
 	var err error
 	if file.writer != nil {
